@@ -30,18 +30,142 @@ impl Fs {
     }
 }
 
+struct Handle {
+    w: Box<dyn std::io::Write>,
+    path: String,
+    append: bool,
+    written: Vec<u8>,
+    base: Vec<u8>,
+    clean: bool,
+}
+
 struct Chain {
     fs: Fs,
     cur: Value,
     curkey: String,
     init: Value,
     steps: Vec<Value>,
+    handles: Vec<Option<Handle>>,
 }
 impl Chain {
     fn new(route_enum: bool) -> Chain {
         let fs = Fs::new(route_enum);
         let cur = fs.project();
-        Chain { curkey: to_ascii_json(&cur), init: cur.clone(), cur, fs, steps: vec![] }
+        Chain { curkey: to_ascii_json(&cur), init: cur.clone(), cur, fs, steps: vec![], handles: vec![None, None] }
+    }
+    fn log(&mut self, c: Value, r: Value) {
+        let post = self.fs.project();
+        let key = to_ascii_json(&post);
+        if key == self.curkey {
+            self.steps.push(json!({"c": c, "r": r, "same": "t", "post": []}));
+        } else {
+            self.steps.push(json!({"c": c, "r": r, "same": "f", "post": post.clone()}));
+            self.cur = post;
+            self.curkey = key;
+        }
+    }
+    /// handle operations: open (write | append) / write / flush / drop on one of two slots.  The call of a flush / drop
+    /// carries the content the file must have afterwards when nothing else touched the tree since the open ("c" flag).
+    fn handle_op(&mut self, prog: &Progress, id: u64, what: &str, slot: usize, path: &str, data: &[u8], append: bool) {
+        prog.mark(id, &format!("{} slot{} {}", what, slot, path));
+        match what {
+            "h_open" => {
+                if self.handles[slot].is_some() {
+                    return;
+                }
+                let base: Vec<u8> = match self.fs.apply(&call("read", path, ""))["v"].as_array() {
+                    Some(a) => a.iter().map(|x| x.as_u64().unwrap_or(0) as u8).collect(),
+                    None => vec![],
+                };
+                let r = gres(|| {
+                    let h = match &self.fs {
+                        Fs::Direct(m) => if append { m.append(path) } else { m.write(path) },
+                        Fs::Enum(v) => if append { v.append(path) } else { v.write(path) },
+                    };
+                    match h {
+                        Ok(w) => {
+                            self.handles[slot] = Some(Handle { w, path: path.to_string(), append, written: vec![], base: base.clone(), clean: true });
+                            r_ok(json!([]))
+                        },
+                        Err(e) => r_err(&err_kind(&e)),
+                    }
+                });
+                // every other open handle is no longer alone
+                for (i, h) in self.handles.iter_mut().enumerate() {
+                    if i != slot {
+                        if let Some(h) = h {
+                            h.clean = false;
+                        }
+                    }
+                }
+                self.log(call_b("h_open", path, "", slot as u32, 0, "", if append { "a" } else { "w" }), r);
+            },
+            "h_write" => {
+                if let Some(h) = self.handles[slot].as_mut() {
+                    let r = match guard(|| h.w.write_all(data)) {
+                        Ok(Ok(())) => {
+                            h.written.extend_from_slice(data);
+                            r_ok(json!([]))
+                        },
+                        Ok(Err(e)) => r_err(&format!("Io::{:?}", e.kind())),
+                        Err(m) => r_panic(&m),
+                    };
+                    let p = h.path.clone();
+                    let mut c = call_d("h_write", &p, data);
+                    c["m"] = json!(slot);
+                    self.log(c, r);
+                }
+            },
+            "h_flush" => {
+                if let Some(h) = self.handles[slot].as_mut() {
+                    let mut content = if h.append { h.base.clone() } else { vec![] };
+                    content.extend_from_slice(&h.written);
+                    let r = match guard(|| h.w.flush()) {
+                        Ok(Ok(())) => r_ok(json!([])),
+                        Ok(Err(e)) => r_err(&format!("Io::{:?}", e.kind())),
+                        Err(m) => r_panic(&m),
+                    };
+                    let (path, clean) = (h.path.clone(), h.clean);
+                    let mut c = call_d("h_flush", &path, &content);
+                    c["m"] = json!(slot);
+                    c["f"] = chars(if clean { "c" } else { "x" });
+                    for (i, o) in self.handles.iter_mut().enumerate() {
+                        if let Some(o) = o {
+                            if i != slot && o.path == path {
+                                o.clean = false;
+                            }
+                        }
+                    }
+                    self.log(c, r);
+                }
+            },
+            "h_drop" => {
+                if let Some(h) = self.handles[slot].take() {
+                    let mut content = if h.append { h.base.clone() } else { vec![] };
+                    content.extend_from_slice(&h.written);
+                    let (path, clean, w) = (h.path, h.clean, h.w);
+                    let r = match guard(move || drop(w)) {
+                        Ok(()) => r_ok(json!([])),
+                        Err(m) => r_panic(&m),
+                    };
+                    let mut c = call_d("h_drop", &path, &content);
+                    c["m"] = json!(slot);
+                    c["f"] = chars(if clean { "c" } else { "x" });
+                    for o in self.handles.iter_mut().flatten() {
+                        if o.path == path {
+                            o.clean = false;
+                        }
+                    }
+                    self.log(c, r);
+                }
+            },
+            _ => {},
+        }
+    }
+    fn dirty_handles(&mut self) {
+        for h in self.handles.iter_mut().flatten() {
+            h.clean = false;
+        }
     }
     fn step(&mut self, prog: &Progress, id: u64, c: Value) -> Value {
         prog.mark(id, &to_ascii_json(&c));
@@ -54,6 +178,7 @@ impl Chain {
             self.steps.push(json!({"c": c, "r": r.clone(), "same": "f", "post": post.clone()}));
             self.cur = post;
             self.curkey = key;
+            self.dirty_handles();
         }
         r
     }
@@ -63,7 +188,11 @@ impl Chain {
     fn existing(&self) -> Vec<String> {
         self.cur["e"].as_array().map(|a| a.iter().map(|e| format!("/{}", e["p"].as_array().unwrap().iter().map(|x| x.as_str().unwrap()).collect::<Vec<_>>().join("/"))).collect()).unwrap_or_default()
     }
-    fn finish(self, out: &mut Out, route: &str) {
+    fn finish(mut self, out: &mut Out, route: &str) {
+        let pr = Progress { f: None };
+        for slot in 0..self.handles.len() {
+            self.handle_op(&pr, 0, "h_drop", slot, "", &[], false);
+        }
         out.rec(&json!({"k": "h", "be": "memfs", "route": route, "init": self.init, "steps": self.steps}));
     }
 }
@@ -193,11 +322,11 @@ fn main() {
                     if !home.is_empty() {
                         ex_home.push(home.clone());
                     }
+                    let a0 = rand_path(&mut rng, &names, 3, &ex_home);
+                    let b0 = rand_path(&mut rng, &names, 3, &ex_home);
                     let (a, b) = if chaos && rng.gen_bool(0.5) {
                         (chaos_path(&mut rng, &ex), chaos_path(&mut rng, &ex))
                     } else {
-                        let a0 = rand_path(&mut rng, &names, 3, &ex_home);
-                        let b0 = rand_path(&mut rng, &names, 3, &ex_home);
                         (respell(&mut rng, &a0, &cwd, &home), respell(&mut rng, &b0, &cwd, &home))
                     };
                     let c = match rng.gen_range(0..40) {
@@ -226,6 +355,16 @@ fn main() {
                         27 => call_ls("append_line", &a, &[["solo"].as_slice(), [""].as_slice()][rng.gen_range(0..2)]),
                         28 => call_b("chmod_b", &a, "", 0, 0, ["f:u+x", "a:go-rwx", "d:a=rx,f:a=r", "a:a+w"][rng.gen_range(0..4)], ["s", "sR", "sF"][rng.gen_range(0..3)]),
                         29 => call_b("chown_b", &a, "", rng.gen_range(1..5), rng.gen_range(1..5), "", ["u", "g", "o", "oR", "uF"][rng.gen_range(0..5)]),
+                        30 | 31 | 32 | 33 => {
+                            // handle operations on one of two slots (stale handles included: the path may be removed or
+                            // replaced by something else while the handle is open)
+                            let slot = rng.gen_range(0..2);
+                            let what = ["h_open", "h_write", "h_write", "h_flush", "h_drop"][rng.gen_range(0..5)];
+                            let data = rand_data(&mut rng);
+                            let append = rng.gen_bool(0.4);
+                            ch.handle_op(&prog, id, what, slot, &a0, &data, append);
+                            continue;
+                        },
                         _ => call(QUERIES[rng.gen_range(0..QUERIES.len())], &a, ""),
                     };
                     ch.step(&prog, id, c);
@@ -324,7 +463,7 @@ fn main() {
                     let a = files[rng.gen_range(0..files.len())];
                     let b = files[rng.gen_range(0..files.len())];
                     let big: Vec<u8> = (0..rng.gen_range(1000..5000)).map(|i| (i % 251) as u8).collect();
-                    let c = match rng.gen_range(0..14) {
+                    let c = match rng.gen_range(0..16) {
                         0 | 1 => call_d("write_all", a, &rand_data(&mut rng)),
                         2 | 3 => call_d("append_all", a, &rand_data(&mut rng)),
                         4 => call_d("write_all", a, &big),
@@ -335,7 +474,14 @@ fn main() {
                         9 | 10 => call("copy", a, b),
                         11 => call("move_p", a, b),
                         12 => call("remove", a, ""),
-                        _ => call("mkfile", a, ""),
+                        _ => {
+                            let slot = rng.gen_range(0..2);
+                            let what = ["h_open", "h_write", "h_flush", "h_drop", "h_drop"][rng.gen_range(0..5)];
+                            let data = rand_data(&mut rng);
+                            let append = rng.gen_bool(0.5);
+                            ch.handle_op(&prog, id, what, slot, a, &data, append);
+                            continue;
+                        },
                     };
                     ch.step(&prog, id, c);
                     // read everything back: contents must be exactly the model's byte vectors, files independent
